@@ -444,6 +444,24 @@ func startWatchdog(c *Ctx) {
 				for _, rc := range runningCases {
 					if time.Since(rc.start) > StuckAfter {
 						fmt.Printf("INCONCLUSIVE property=%s reason=case %s/%d has been running for more than %s (stuck in the code under test or in the harness); replay it with VERIF_SEED=%d\n", c.Prop, rc.sub, rc.idx, StuckAfter, c.Seed)
+						// violations recorded so far are not lost with the run
+						c.mu.Lock()
+						if len(c.violations) > 0 && c.OnlySub == "" {
+							os.MkdirAll(outDir("replays"), 0o755)
+							for i, v := range c.violations {
+								if i >= 5 {
+									break
+								}
+								p := filepath.Join(outDir("replays"), fmt.Sprintf("%s-%s-%d-%d.json", c.Prop, c.Tier, c.Seed, i))
+								b, _ := json.MarshalIndent(v, "", " ")
+								os.WriteFile(p, b, 0o644)
+								fmt.Printf("VIOLATION property=%s replay=%s\n", c.Prop, p)
+								fmt.Printf("  %s/%d: %s\n", v.Sub, v.Index, firstLine(v.Message))
+							}
+							fmt.Printf("%s %s seed=%d: violated; ended early by the stuck-case watchdog\n", c.Prop, c.Tier, c.Seed)
+							os.Exit(1)
+						}
+						fmt.Printf("%s %s seed=%d: inconclusive; ended early by the stuck-case watchdog\n", c.Prop, c.Tier, c.Seed)
 						os.Exit(2)
 					}
 				}
